@@ -21,7 +21,14 @@ def run(tier: str, keep: bool = False) -> int:
     r.solo("stream", "S", fam, ["poll"], 9, props, pre=[["put"]])
     r.solo("mdonly", "S", 'Numbered({ [SoloBase(2, 1, 0) EXCEPT !.mdOnly = TRUE, !.mode = m, !.closure = c, !.msgs = g] : '
                           'm \\in {"ACK", "UNACK"}, c \\in BOOLEAN, g \\in {<<>>, << <<1, 2>> >>} })', ["poll", "put"], 5, props, pre=[["put"]])
+    # Metadata options of the request: filestore request, fault handler override, flow label, then the messages to the user
+    XO = '<< [t |-> 0, v |-> <<0, 1, 120>>], [t |-> 4, v |-> <<83>>], [t |-> 5, v |-> <<1, 2>>] >>'
+    r.solo("options", "S", 'Numbered({ [SoloBase(2, 1, n) EXCEPT !.mdOnly = o, !.mode = m, !.msgs = g, !.xopts = x, !.maxPkt = mp] : '
+                           'n \\in {0, 2}, o \\in BOOLEAN, m \\in {"ACK", "UNACK"}, g \\in {<<>>, << <<1, 2>> >>}, mp \\in {24, 512}, '
+                           'x \\in {<<>>, %s, SubSeq(%s, 2, 3), SubSeq(%s, 1, 1)} })' % (XO, XO, XO), ["poll"], 6, props, pre=[["put"]])
     r.schedules("pair", 'FamAll(2, {0, 1, 3}, {"CRC32", "NULL"})', ["C02", "C07", "C10"], K=0)
+    r.schedules("pairopts", '{ [c EXCEPT !.xopts = %s, !.msgs = << <<1, 2, 3>> >>] : c \\in FamAll(2, {1}, {"CRC32"}) }' % XO,
+                ["C02", "C07", "C10", "C15"], K=0)
     r.driver("src_nominal", 400 if q else 6000, props)
     r.judge()
     return r.finish(assumptions=["no inbound PDUs before the EOF (the statement's scope); Metadata / NAK / Finished lengths are not "
